@@ -2,6 +2,7 @@ package core
 
 import (
 	"encoding/binary"
+	"encoding/json"
 	"fmt"
 	"math/rand"
 	"os"
@@ -194,4 +195,45 @@ func intsOf(b []byte) []int {
 		r[i] = int(v)
 	}
 	return r
+}
+
+// ObserveOpenSub runs ObserveOpen in a child process: corrupted files can crash the real code in
+// a goroutine of its own (db.freepages), which no recover() in the caller can catch.
+func ObserveOpenSub(path string, profName string, pageSize int, hashmap bool) openObs {
+	hm := "0"
+	if hashmap {
+		hm = "1"
+	}
+	cmd := exec.Command(Self(), "observe-open", path, profName, fmt.Sprint(pageSize), hm)
+	var so, se strings.Builder
+	cmd.Stdout = &so
+	cmd.Stderr = &se
+	done := make(chan error, 1)
+	if err := cmd.Start(); err != nil {
+		return openObs{Err: err.Error()}
+	}
+	go func() { done <- cmd.Wait() }()
+	select {
+	case err := <-done:
+		var obs openObs
+		if err == nil && json.Unmarshal([]byte(so.String()), &obs) == nil {
+			return obs
+		}
+		msg := firstLines(se.String(), 3)
+		return openObs{Err: "process crashed: " + msg, Panic: "process crashed: " + msg}
+	case <-time.After(60 * time.Second):
+		_ = cmd.Process.Kill()
+		<-done
+		return openObs{Err: "timeout", Panic: "open/check did not return within 60 s"}
+	}
+}
+
+func init() {
+	RegisterCmd("observe-open", func(args []string) {
+		ps := 0
+		fmt.Sscan(args[2], &ps)
+		obs := ObserveOpen(args[0], ProfileByName(ps, args[1]), ps, args[3] == "1")
+		b, _ := json.Marshal(obs)
+		fmt.Println(string(b))
+	})
 }
